@@ -102,4 +102,19 @@ PROPS = {
         "trusted_base": ["hand-written model of pod construction/comparison tied by the create_pod stream; MD5 collision freedom on the objects at hand"],
         "assumptions": COMMON_ASSUME + ["container names are unique within a pod template and within a setting (API validation for pods; by convention for settings)"],
     },
+    "C15": {
+        "level_text": "Lean theorems about the model of selectNodes (distinctness, validity of every listed node, keeping of still-valid nodes in order, count reaching the request resolved against the targeted nodes rounding up, error when short) for every node population, pod restart history, replicas value, node selector, anti-affinity keys and previously selected list; the real selectNodes runs against a fake API server holding the nodes and pods and its result is compared with the model's and with the specification clauses (distinct, new-valid, keep, count, all-valid).",
+        "level_note": TB + "Modelled by hand: selectNodes (restart-ordered candidates, anti-affinity quota, fitness). Go's sort.Slice is an insertion sort (stable) for <= 12 elements, which is what the stream uses; larger populations are compared up to the specification clauses only. The trigger (when the EDS reconcile calls selectNodes) is covered by the eds_reconcile stream.",
+        "streams": [("select_nodes", 3000, 60000), ("fitness", 1000, 20000)],
+        "trusted_base": ["hand-written model of selectNodes tied by the select_nodes stream; label-selector conversion re-implemented in the model"],
+        "assumptions": COMMON_ASSUME + ["node names are unique (API server)"],
+    },
+    "C01": {
+        "level_text": "Lean theorems C01_keys / C01_fit_unfold (the per-node map's keys are exactly the listed, non-ignored nodes satisfying nodeSelector, required affinity incl. matchFields, and NoSchedule/NoExecute taints vs template + default tolerations), C01_kept_none (a node has no kept pod only if every pod on it is Unknown or a released Failed pod being deleted), C01_dup_resolution(_strict) (kept pod = first under scheduled/oldest/name, all other live pods deleted), C01_ineligible_deleted, C01_unknown_untouched, C01_create_only_empty / C01_create_nodup (active role), C01_canary_create_only_empty / _nodup, C01_unknown_role_creates_nothing, C01_creation_sound / C01_creation_once / C01_roles_disjoint, and C01_holds (the decidable contract Spec.C01.holds is true of the model's output) for every node set, template, pod multiset, ignore list and back-off state; the real CheckNodeFitness, FilterAndMapPodsByNode (real Reconciler with seeded back-off), ManageDeployment and manageCanaryStatus run against the model and the same Spec.C01 clauses are evaluated on their outputs.",
+        "level_note": TB + "Modelled by hand: CheckNodeFitness (label/field selector and toleration semantics of apimachinery re-implemented), FilterAndMapPodsByNode incl. the sequential effect of the failed-pod back-off within one sync, sort.Sort as insertion sort under a strict total order given unique pod names. The statement 'every interleaving of syncs with kubelet/user actions' is covered by quantifying over every store the sync may read; API-level Create/Delete calls are tied by the ers_reconcile stream when registered.",
+        "streams": [("filter", 3000, 60000), ("fitness", 3000, 60000), ("manage_deployment", 1000, 20000), ("manage_canary", 1000, 20000)],
+        "extra_theorems": [("EdsProofs.FactsBridge", "facts_tolerations")],
+        "trusted_base": ["hand-written models of CheckNodeFitness / FilterAndMapPodsByNode tied by the fitness and filter streams; labels.Selector / fields.Selector / Toleration.ToleratesTaint semantics re-implemented in the model"],
+        "assumptions": COMMON_ASSUME + ["node names and pod names are unique (API server)", "label keys/values in selectors are syntactically valid (not modelled: labels.NewRequirement key/value validation)"],
+    },
 }
